@@ -1,0 +1,129 @@
+//go:build verif
+// +build verif
+
+// Contracts for deductive verification of package router (comment-only; compiled only
+// with the build tag "verif"). Grammar: /verif/DESIGN.md, Appendix B.
+
+package router
+
+// ---------------------------------------------------------------- trusted standard library / helpers
+// strconv.ParseInt(s, 10, 64) and strconv.Atoi(s): uninterpreted parse predicate and value.
+//@ pure parseIntOK(s string) bool
+//@ pure parseIntVal(s string) int64
+//@ pure atoiOK(s string) bool
+//@ pure atoiVal(s string) int
+//@ trusted strconv.ParseInt
+//@   params s, base, bitSize
+//@   pure-call
+//@   ensures (base == 10 && bitSize == 64) ==> ((ret1 == nil) <==> parseIntOK(s))
+//@   ensures (base == 10 && bitSize == 64 && ret1 == nil) ==> ret0 == parseIntVal(s)
+//@ trusted strconv.Atoi
+//@   params s
+//@   pure-call
+//@   ensures (ret1 == nil) <==> atoiOK(s)
+//@   ensures ret1 == nil ==> ret0 == atoiVal(s)
+// hack.String reinterprets the bytes as a string (same memory): a function of the slice header
+//@ pure strOf(b []byte) string
+//@ trusted github.com/XiaoMi/Gaea/util/hack.String
+//@   params b
+//@   pure-call
+//@   ensures ret0 == strOf(b)
+// package-level error values are initialised once with errors.New and never reassigned
+//@ axiom errKeyOutOfRange: errors.ErrKeyOutOfRange != nil
+
+// ---------------------------------------------------------------- C09 numeric ranges
+// numeric value of a sharding key, as the router reads it
+//@ pure numOK(v interface{}) bool = typeis(v, int) || typeis(v, uint64) || typeis(v, int64) ||
+//@        (typeis(v, string) && parseIntOK(unbox(v, string))) || (typeis(v, []byte) && parseIntOK(strOf(unbox(v, []byte))))
+//@ pure numVal(v interface{}) int64 = ite(typeis(v, int), int64(unbox(v, int)), ite(typeis(v, uint64), int64(unbox(v, uint64)),
+//@        ite(typeis(v, int64), unbox(v, int64), ite(typeis(v, string), parseIntVal(unbox(v, string)), parseIntVal(strOf(unbox(v, []byte)))))))
+// half-open interval [Start, End), End == MaxInt64 meaning "unbounded"
+//@ pure contains(r NumKeyRange, i int64) bool = r.Start <= i && (r.End == 9223372036854775807 || i < r.End)
+
+//@ property C09: (NumKeyRange).Contains, NumValue, (*NumRangeShard).FindForKey, (*NumRangeShard).EqualStart, ParseNumSharding
+
+//@ func (NumKeyRange).Contains
+//@   assigns \nothing
+//@   ensures ret0 <==> contains(kr, i)
+
+// NumValue panics (KeyError, recovered by the rule layer) exactly on keys that are not numeric
+//@ func NumValue
+//@   assigns \nothing
+//@   may-panic when !numOK(value)
+//@   ensures ret0 == numVal(value)
+
+//@ func (*NumRangeShard).FindForKey
+//@   assigns \nothing
+//@   requires s != nil
+//@   may-panic when !numOK(key)
+//@   loop 0 invariant forall(j, 0, rangeindex+1, !contains(s.Shards[j], v))
+//@   ensures case found:    ret1 == nil ==> 0 <= ret0 && ret0 < len(s.Shards) && contains(s.Shards[ret0], numVal(key))
+//@   ensures case first:    ret1 == nil ==> forall(j, 0, ret0, !contains(s.Shards[j], numVal(key)))
+//@   ensures case rejected: ret1 != nil ==> ret0 == -1 && forall(j, 0, len(s.Shards), !contains(s.Shards[j], numVal(key)))
+//@   ensures case total:    ret1 == nil <==> exists(j, 0, len(s.Shards), contains(s.Shards[j], numVal(key)))
+
+//@ func (*NumRangeShard).EqualStart
+//@   assigns \nothing
+//@   requires s != nil && 0 <= index && index < len(s.Shards)
+//@   may-panic when !numOK(key)
+//@   ensures ret0 <==> s.Shards[index].Start == numVal(key)
+
+// ---------------------------------------------------------------- C09 calendar rules
+// time.Unix / Format("2006-01-02") / Year as uninterpreted functions (trusted standard library)
+//@ pure unixTime(sec int64) time.Time
+//@ pure fmtDate(t time.Time) string
+//@ pure yearOfTime(t time.Time) int
+//@ trusted time.Unix
+//@   params sec, nsec
+//@   pure-call
+//@   ensures nsec == 0 ==> ret0 == unixTime(sec)
+//@ trusted (time.Time).Format
+//@   params t, layout
+//@   pure-call
+//@   ensures layout == "2006-01-02" ==> ret0 == fmtDate(t) && len(ret0) == 10
+//@ trusted (time.Time).Year
+//@   params t
+//@   pure-call
+//@   ensures ret0 == yearOfTime(t)
+// for years 0..9999 the first four characters of the formatted date are the year
+//@ axiom yearIsPrefix: forall(t time.Time, yearOfTime(t) == atoiVal(fmtDate(t)[0:4]))
+//@ pure isIntKey(v interface{}) bool = typeis(v, int) || typeis(v, uint64) || typeis(v, int64)
+//@ pure unixOf(v interface{}) int64 = ite(typeis(v, int), int64(unbox(v, int)), ite(typeis(v, uint64), int64(unbox(v, uint64)), unbox(v, int64)))
+// the 'YYYY-MM-DD...' spelling of a key: the string itself, or the local date of the unix timestamp
+//@ pure dateKey(v interface{}) string = ite(typeis(v, string), unbox(v, string), fmtDate(unixTime(unixOf(v))))
+
+//@ property C09: (*DateYearShard).getNumYear, (*DateMonthShard).getNumYearMonth, (*DateDayShard).getNumYearMonthDay
+
+//@ func (*DateYearShard).getNumYear
+//@   assigns \nothing
+//@   ensures case kinds:    ret1 == nil ==> isIntKey(key) || typeis(key, string)
+//@   ensures case period:   ret1 == nil ==> ret0 == atoiVal(dateKey(key)[0:4])
+//@   ensures case accepted: (isIntKey(key) || (typeis(key, string) && len(unbox(key, string)) >= 4 && atoiOK(unbox(key, string)[0:4]))) ==> ret1 == nil
+//@   ensures case short:    ret1 == nil && typeis(key, string) ==> len(unbox(key, string)) >= 4
+//@   ensures case malformed: ret1 == nil && typeis(key, string) ==> len(unbox(key, string)) >= 10 && unbox(key, string)[4] == '-' && unbox(key, string)[7] == '-'
+
+//@ func (*DateMonthShard).getNumYearMonth
+//@   assigns \nothing
+//@   ensures case kinds:    ret1 == nil ==> isIntKey(key) || typeis(key, string)
+//@   ensures case period:   ret1 == nil ==> ret0 == atoiVal(dateKey(key)[0:4] + dateKey(key)[5:7])
+//@   ensures case accepted: (typeis(key, string) && len(unbox(key, string)) >= 10 && atoiOK(unbox(key, string)[0:4] + unbox(key, string)[5:7])) ==> ret1 == nil
+//@   ensures case short:    ret1 == nil && typeis(key, string) ==> len(unbox(key, string)) >= 10
+//@   ensures case malformed: ret1 == nil && typeis(key, string) ==> unbox(key, string)[4] == '-' && unbox(key, string)[7] == '-'
+
+//@ func (*DateDayShard).getNumYearMonthDay
+//@   assigns \nothing
+//@   ensures case kinds:    ret1 == nil ==> isIntKey(key) || typeis(key, string)
+//@   ensures case period:   ret1 == nil ==> ret0 == atoiVal(dateKey(key)[0:4] + dateKey(key)[5:7] + dateKey(key)[8:10])
+//@   ensures case accepted: (typeis(key, string) && len(unbox(key, string)) >= 10 && atoiOK(unbox(key, string)[0:4] + unbox(key, string)[5:7] + unbox(key, string)[8:10])) ==> ret1 == nil
+//@   ensures case short:    ret1 == nil && typeis(key, string) ==> len(unbox(key, string)) >= 10
+//@   ensures case malformed: ret1 == nil && typeis(key, string) ==> unbox(key, string)[4] == '-' && unbox(key, string)[7] == '-'
+
+// configuration sizes: at most 1024 slices of at most 2^20 tables, row limit below 2^31
+//@ func ParseNumSharding
+//@   requires len(Locations) <= 1024 && forall(k, 0, len(Locations), 0 <= Locations[k] && Locations[k] <= 1<<20)
+//@   requires 0 <= TableRowLimit && TableRowLimit < 1<<31
+//@   loop 0(i) invariant 0 <= i && i <= length && 0 <= tableCount && tableCount <= i * (1<<20)
+//@   loop 1(i) invariant 0 <= i && i <= tableCount && len(ranges) == tableCount
+//@   loop 1(i) invariant forall(k, 0, i, ranges[k].Start == k * TableRowLimit && ranges[k].End == (k+1) * TableRowLimit)
+//@   ensures ret1 == nil
+//@   ensures forall(k, 0, len(ret0), ret0[k].Start == k * TableRowLimit && ret0[k].End == (k+1) * TableRowLimit)
